@@ -7,10 +7,10 @@ import (
 	"encoding/json"
 	"fmt"
 	"os"
-	"path"
 	"path/filepath"
 	"sort"
 	"strconv"
+	"strings"
 	"sync"
 	"time"
 )
@@ -160,13 +160,33 @@ func (r *Run) Violation(sig, msg string, witness interface{}) {
 	for i := range r.known {
 		k := &r.known[i]
 		if k.Property == r.Prop && k.Status == "open" {
-			if ok, _ := path.Match(k.Key, sig); ok || k.Key == sig {
+			if k.Key == sig || wildcardMatch(k.Key, sig) {
 				v.Known = k
 			}
 		}
 	}
 	r.viols[sig] = v
 	r.order = append(r.order, sig)
+}
+
+// wildcardMatch: '*' in the pattern matches any (possibly empty) substring; everything else is literal.
+func wildcardMatch(pattern, s string) bool {
+	parts := strings.Split(pattern, "*")
+	if len(parts) == 1 {
+		return pattern == s
+	}
+	if !strings.HasPrefix(s, parts[0]) {
+		return false
+	}
+	s = s[len(parts[0]):]
+	for i := 1; i < len(parts)-1; i++ {
+		j := strings.Index(s, parts[i])
+		if j < 0 {
+			return false
+		}
+		s = s[j+len(parts[i]):]
+	}
+	return strings.HasSuffix(s, parts[len(parts)-1])
 }
 
 func (r *Run) NumViolations() int {
